@@ -2,7 +2,8 @@
    arrives once."
 
    Stated of the interleaving model Model/Conc.v (event loop, sender
-   goroutines, command dispatcher, sequence goroutines, cancellation) with the
+   goroutines, command dispatcher, Init forwarder goroutine, sequence
+   goroutines, cancellation with Sends that give up, a failing loop) with the
    executable predicates of Spec/ConcSpec.v over the ghost event log, for EVERY
    user program (M, upd, cres), every Init command, every set of sender scripts
    and EVERY schedule (a schedule is any list of labels; a label that is not
@@ -22,13 +23,16 @@ Theorem C02_handed_are_owed :
 Proof. exact handed_are_owed. Qed.
 Print Assumptions C02_handed_are_owed.
 
-(* 2. at the select nothing is owed any more: every non-nil command returned so far, at any batch nesting depth
-      reached so far, has been handed over exactly once; nil commands are skipped *)
+(* 2. at the select, the context not cancelled, nothing is owed any more: every non-nil command returned so far, at
+      any batch nesting depth reached so far, has been handed over exactly once; nil commands are skipped.  The one
+      exception is Init's command while its forwarder goroutine (c_ifw s) has not been served by the dispatcher yet:
+      while the context is not cancelled the forwarder cannot give up and the dispatcher cannot have exited.
+      (Once the context is cancelled or the loop has exited only theorem 1 remains: handed <= owed.) *)
 Theorem C02_all_handed_when_idle :
   forall (M : Type) (upd : M -> msg -> M * option cmdid) (cres : cmdid -> msg)
          (m0 : M) (init_cmd : option cmdid) (scripts : list (list msg)) (sched : list label),
     let s := run M upd cres (init_state M m0 init_cmd scripts) sched in
-    c_loop s = LIdle -> all_handed init_cmd (c_log s) = true.
+    c_loop s = LIdle -> c_ctx s = false -> all_handed init_cmd (c_ifw s) (c_log s) = true.
 Proof. exact all_handed_when_idle. Qed.
 Print Assumptions C02_all_handed_when_idle.
 
@@ -46,18 +50,41 @@ Proof. exact started_once_thm. Qed.
 Print Assumptions C02_started_once.
 
 (* 4. the result of dispatcher goroutine j is delivered at most once, only after the command returned, and it is
-      `cres` of that command; a finished goroutine delivered exactly once, an unfinished one not yet *)
+      `cres` of that command; a finished goroutine got rid of its result exactly once (delivered to the loop, or
+      dropped because its Send gave up: exactly one of the two), an unfinished one not yet; a Send gives up only
+      after the context was cancelled *)
 Theorem C02_results_once :
   forall (M : Type) (upd : M -> msg -> M * option cmdid) (cres : cmdid -> msg)
          (m0 : M) (init_cmd : option cmdid) (scripts : list (list msg)) (sched : list label),
     let s := run M upd cres (init_state M m0 init_cmd scripts) sched in
     results_once cres (c_log s) = true /\
-    (forall (j : nat) (c : cmdid), nth_error (c_cmds s) j = Some (CDone c) -> length (recv_from (WCmd j) (c_log s)) = 1) /\
+    (forall (j : nat) (c : cmdid), nth_error (c_cmds s) j = Some (CDone c) -> length (sent_from (WCmd j) (c_log s)) = 1) /\
     (forall (j : nat) (c : cmdid) (m : msg),
         nth_error (c_cmds s) j = Some (CRunning c) \/ nth_error (c_cmds s) j = Some (CSending c m) ->
-        recv_from (WCmd j) (c_log s) = []).
+        sent_from (WCmd j) (c_log s) = []) /\
+    no_drop_before_cancel (c_log s) = true.
 Proof. exact results_once_thm. Qed.
 Print Assumptions C02_results_once.
+
+(* 4'. so, while the context has not been cancelled, the result of a finished goroutine WAS delivered to the loop,
+       exactly once *)
+Theorem C02_result_delivered_before_cancel :
+  forall (M : Type) (upd : M -> msg -> M * option cmdid) (cres : cmdid -> msg)
+         (m0 : M) (init_cmd : option cmdid) (scripts : list (list msg)) (sched : list label),
+    let s := run M upd cres (init_state M m0 init_cmd scripts) sched in
+    ~ In ECancel (c_log s) ->
+    forall (j : nat) (c : cmdid), nth_error (c_cmds s) j = Some (CDone c) -> length (recv_from (WCmd j) (c_log s)) = 1.
+Proof. exact result_delivered_before_cancel. Qed.
+Print Assumptions C02_result_delivered_before_cancel.
+
+(* (the cancellation flag is set only by LbCancel, which logs ECancel: c_ctx s = false is implied by ~ In ECancel) *)
+Theorem C02_cancelled_is_logged :
+  forall (M : Type) (upd : M -> msg -> M * option cmdid) (cres : cmdid -> msg)
+         (m0 : M) (init_cmd : option cmdid) (scripts : list (list msg)) (sched : list label),
+    let s := run M upd cres (init_state M m0 init_cmd scripts) sched in
+    c_ctx s = true -> In ECancel (c_log s).
+Proof. exact cancelled_is_logged. Qed.
+Print Assumptions C02_cancelled_is_logged.
 
 (* 5. a nil message (a command that returned nil) never reaches Update; neither does MQuit nor a BatchMsg
       (updatable m = true means m is MUser _ or MSeq _).  No EHand / EStart is logged for a nil (None) entry:
@@ -82,8 +109,8 @@ Print Assumptions C02_hand_is_owed.
 (* 6. a blocked or slow command delays nothing.  For ANY state s (reachable or not) in which the dispatcher lives
       and the loop has not exited, the loop reaches its select (or exits) by at most 4 + (batch length) of its OWN
       steps (loop_label: LbProcess / LbHand / LbView), each enabled in turn, leaving every existing command
-      goroutine, sequence goroutine and sender untouched; and at the select a sender at its Send point is served by
-      the loop alone.  No step of any command goroutine is needed: a command that never returns (its LbCmdFinish
+      goroutine, sequence goroutine, sender and the Init forwarder untouched (the forwarder's hand-over LbHandInit
+      is not needed either); and at the select a sender at its Send point is served by the loop alone.  No step of any command goroutine is needed: a command that never returns (its LbCmdFinish
       never fires) delays no message, no other command of the same batch, and not the exit. *)
 Theorem C02_noninterference :
   forall (M : Type) (upd : M -> msg -> M * option cmdid) (cres : cmdid -> msg) (s : cstate M),
@@ -96,17 +123,21 @@ Theorem C02_noninterference :
        (c_loop s' = LIdle \/ c_loop s' = LExited) /\
        firstn (length (c_cmds s)) (c_cmds s') = c_cmds s /\
        firstn (length (c_seqs s)) (c_seqs s') = c_seqs s /\
-       c_senders s' = c_senders s) /\
+       c_senders s' = c_senders s /\
+       c_ifw s' = c_ifw s) /\
     (forall (i : nat) (m : msg), c_loop s = LIdle -> offer M s (WSender i) = Some m ->
                                  step M upd cres s (LbRecv (WSender i)) <> None).
 Proof. exact noninterference. Qed.
 Print Assumptions C02_noninterference.
 
 (* ------------------------------------------------------------------ *)
-(* A concrete program and schedule: Init returns command 6, whose result is a BatchMsg containing command 2, whose
-   result is again a BatchMsg (nested batch) with a nil entry; command 0 returns nil; a sender sends a raw BatchMsg
-   with a nil entry; a sequence runs; dispatcher goroutine 4 (command 4) returned but its result is never taken
-   and goroutine 6 (command 3) never returns.  Every label of the schedule is enabled. *)
+(* A concrete program and schedule: Init returns command 6 (handed over by the forwarder goroutine, LbHandInit, after
+   the first View), whose result is a BatchMsg containing command 2, whose result is again a BatchMsg (nested batch)
+   with a nil entry; command 0 returns nil; a sender sends a raw BatchMsg with a nil entry; a sequence runs;
+   dispatcher goroutine 4 (command 4) returned but its result is not taken and goroutine 6 (command 3) never
+   returns.  At that point (state s1: loop at the select, context alive) everything owed has been handed over.
+   Then the context is cancelled (LbCancel), goroutine 4 and the errgroup member WGrp 0 0 give up their Sends
+   (LbGiveUp: results dropped), the loop and the dispatcher exit.  Every label of the schedule is enabled. *)
 Module Ex.
   Definition upd (m : nat) (x : msg) : nat * option cmdid :=
     (S m, match x with MUser t => if Nat.even t then Some (t mod 8) else None | MSeq _ => Some 3 | _ => None end).
@@ -117,8 +148,9 @@ Module Ex.
     end.
   Definition scripts : list (list msg) := [[MUser 2; MBatch [None; Some 0]]; [MUser 3; MSeq [Some 1; Some 2]]].
   Definition s0 := init_state nat 0 (Some 6) scripts.
-  Definition sched : list label :=
-    [ LbHand; LbView; LbCmdFinish 0; LbRecv (WCmd 0); LbProcess; LbHand; LbHand; LbHand; LbHand;
+  Definition sched0 : list label := [ LbView ].
+  Definition sched1 : list label :=
+    [ LbHandInit; LbCmdFinish 0; LbRecv (WCmd 0); LbProcess; LbHand; LbHand; LbHand; LbHand;
       LbCmdFinish 1; LbRecv (WCmd 1); LbProcess; LbHand; LbHand; LbHand; LbHand;
       LbCmdFinish 2; LbRecv (WCmd 2); LbProcess;
       LbRecv (WSender 0); LbProcess; LbHand; LbView;
@@ -129,23 +161,43 @@ Module Ex.
       LbSeqStep 0; LbSeqFinish 0; LbGrpFinish 0 1; LbRecv (WGrp 0 1); LbProcess; LbHand; LbView;
       LbCmdFinish 5; LbRecv (WCmd 5); LbProcess; LbHand; LbHand; LbHand; LbHand;
       LbRecv (WSender 0); LbProcess; LbHand; LbHand; LbHand;
-      LbCmdFinish 4 ].
+      LbCmdFinish 4; LbGrpFinish 0 0 ].
+  Definition sched2 : list label :=
+    [ LbCancel; LbGiveUp (WCmd 4); LbGiveUp (WGrp 0 0); LbLoopExit; LbDispExit ].
+  Definition sched : list label := sched0 ++ sched1 ++ sched2.
   Fixpoint all_enabled (s : cstate nat) (ls : list label) : bool :=
     match ls with
     | [] => true
     | l :: r => match step nat upd cres s l with Some s' => all_enabled s' r | None => false end
     end.
+  Definition sa := run nat upd cres s0 sched0.                  (* at the select, the forwarder still waiting *)
+  Definition s1 := run nat upd cres s0 (sched0 ++ sched1).      (* at the select, before the cancellation *)
   Definition s := run nat upd cres s0 sched.
   Definition no_nil_update (log : list ev) : bool :=
     forallb (fun e => match e with EUpdate m _ => updatable m | _ => true end) log.
   Definition is_idle (l : looppc) : bool := match l with LIdle => true | _ => false end.
+  Definition is_exited (l : looppc) : bool := match l with LExited => true | _ => false end.
+  Definition is_none {A} (o : option A) : bool := match o with None => true | _ => false end.
+  Definition has_cancel (log : list ev) : bool := existsb (fun e => match e with ECancel => true | _ => false end) log.
+  Definition n_drops (log : list ev) : nat := length (filter (fun e => match e with EDrop _ _ => true | _ => false end) log).
 End Ex.
 
 Example C02_example :
-  (40 <=? length Ex.sched) && Ex.all_enabled Ex.s0 Ex.sched && Ex.is_idle (c_loop Ex.s) &&
+  (40 <=? length Ex.sched) && Ex.all_enabled Ex.s0 Ex.sched &&
+  (* the forwarder still waiting: Init's command is the one owed command not handed over *)
+  Ex.is_idle (c_loop Ex.sa) && negb (c_ctx Ex.sa) && negb (Ex.is_none (c_ifw Ex.sa)) &&
+  all_handed (Some 6) (c_ifw Ex.sa) (c_log Ex.sa) && negb (all_handed (Some 6) None (c_log Ex.sa)) &&
+  (* before the cancellation *)
+  Ex.is_idle (c_loop Ex.s1) && negb (c_ctx Ex.s1) && Ex.is_none (c_ifw Ex.s1) &&
+  all_handed (Some 6) (c_ifw Ex.s1) (c_log Ex.s1) && negb (Ex.has_cancel (c_log Ex.s1)) &&
+  (* at the end *)
+  Ex.is_exited (c_loop Ex.s) && c_ctx Ex.s && negb (c_disp Ex.s) && Ex.has_cancel (c_log Ex.s) &&
   (40 <=? length (c_log Ex.s)) &&
-  handed_owed (Some 6) (c_log Ex.s) && all_handed (Some 6) (c_log Ex.s) &&
+  handed_owed (Some 6) (c_log Ex.s) &&
   started_once (c_log Ex.s) && results_once Ex.cres (c_log Ex.s) && Ex.no_nil_update (c_log Ex.s) &&
+  no_drop_before_cancel (c_log Ex.s) && (Ex.n_drops (c_log Ex.s) =? 2) &&
+  list_eqb msg_eqb (sent_from (WCmd 4) (c_log Ex.s)) [MUser 104] && list_eqb msg_eqb (recv_from (WCmd 4) (c_log Ex.s)) [] &&
+  list_eqb msg_eqb (sent_from (WCmd 6) (c_log Ex.s)) [] &&
   list_eqb Nat.eqb (hands (c_log Ex.s)) [6; 2; 0; 1; 4; 2; 3; 0; 1; 4; 0] &&
   list_eqb Nat.eqb (map cmd_of (c_cmds Ex.s)) (hands (c_log Ex.s)) = true.
 Proof. vm_compute. reflexivity. Qed.
